@@ -123,7 +123,7 @@ def make_obs(rng, layout, mean=1.0, sigma=0.05, tau=0.0, kind='normal'):
         by_ens.setdefault(name.split('|')[0], []).append((name, idl))
     parts = []
     for e, chains in by_ens.items():
-        samples = [chain_data(rng, len(idl), mean=mean + 0.01 * rng.normal(), sigma=sigma, tau=tau, kind=kind) for _, idl in chains]
+        samples = [chain_data(rng, len(idl), mean=mean + 0.2 * sigma * rng.normal(), sigma=sigma, tau=tau, kind=kind) for _, idl in chains]
         parts.append(pe.Obs(samples, [n for n, _ in chains], idl=[idl for _, idl in chains]))
     o = parts[0]
     for p in parts[1:]:
